@@ -1,4 +1,9 @@
-"""C15 - Bloom filter: no false negatives in any representation; bitwise set algebra."""
+"""C15 - Bloom filter: no false negatives in any representation; bitwise set algebra.
+Pipeline: (1) MC of the contract and of the design model refining it; (2) recorded random histories of the real class, validated
+against the contract (tier A) and, for drift, against the design model incl. the count word stored in wrapped memory (tier B,
+TraceBloomB.cfg); (3) spec -> impl: GenBloom (TLC, BFS) emits every (reachable model state, call) pair within Depth calls as a
+behaviour, `bloom_rec --replay` executes them on real filters, the traces go through the same two tiers."""
+import os, re, shutil
 from . import core
 from .props import prop, job, mc_all, Q, T
 
@@ -24,12 +29,61 @@ def bloom_nontrivial(evs):
     return hit and setop
 
 BLOOM_JOB = job("bloom",
-    harness="bloom_rec", inc=["common", "filters"], spec="TraceBloom", owners=["C15"], serde=True,
+    harness="bloom_rec", inc=["common", "filters"], spec="TraceBloom", owners=["C15"], serde=True, drift_cfg="TraceBloomB.cfg",
     files={Q: 8, T: 64},
     args=lambda tier, seed, k, profile: ["--seed", seed, "--segments", 10 if tier == Q else 16, "--events", 230 + 20 * (k % 4),
                                          "--maxbits", 2048 if k % 3 else 640, "--fpp", 6 if tier == Q else 16,
                                          "--serde", 20 if profile == "serde" else 12],
     nontrivial=bloom_nontrivial,
+)
+
+# ---- spec -> impl: generated behaviours -------------------------------------------------------------------------------
+# tier -> [(Depth, stride, number of trace files)]: the first generation is replayed completely, the deeper one every
+# stride-th behaviour (offset = seed mod stride, so different seeds cover different residues)
+GEN_PLAN = {Q: [(4, 1, 8)], T: [(5, 1, 32), (6, 16, 8)]}
+_gen = []      # per trace file: argument list, filled by gen_bloom before the replay job runs
+
+def gen_bloom(oc, tier, seed):
+    _gen.clear()
+    dirs = []
+    for depth, stride, nparts in GEN_PLAN[tier]:
+        gdir = os.path.join(core.BUILD, "gen", "bloom_%d_%d" % (os.getpid(), depth))
+        shutil.rmtree(gdir, ignore_errors=True)
+        os.makedirs(gdir)
+        dirs.append(gdir)
+        cfg = re.sub(r"Depth = \d+", "Depth = %d" % depth, open(os.path.join(core.SPEC, "GenBloom.cfg")).read())
+        cfgname = "GenBloom_d%d_%d.cfg" % (depth, os.getpid())
+        with open(os.path.join(core.SPEC, cfgname), "w") as f:
+            f.write(cfg)
+        prefix = os.path.join(gdir, "beh")
+        try:
+            rc, out, wall = core.tlc("GenBloom", cfgname, workers=1, timeout=1800, env={"GEN_OUT": prefix}, heap="8g")
+        finally:
+            os.remove(os.path.join(core.SPEC, cfgname))
+        r = core.parse_tlc(out)
+        m = re.search(r'<<"BEHAVIOURS", (\d+), "FILES", (\d+)>>', out)
+        if not m or r["errors"] or r["parse_error"] or "Model checking completed" not in out:
+            raise core.MachineryError("behaviour generation GenBloom failed:\n" + out[-3000:])
+        nbeh, nfiles = int(m.group(1)), int(m.group(2))
+        r.update(module="GenBloom", cfg="GenBloom.cfg[Depth=%d]" % depth, wall_s=round(wall, 1))
+        oc.mc.append(r)
+        oc.extra.setdefault("generated_behaviours", []).append({"depth": depth, "behaviours": nbeh, "model_states": r["distinct"],
+                                                                "replayed": (nbeh + stride - 1) // stride if stride > 1 else nbeh})
+        core.log("  GEN GenBloom depth %d: %d behaviours (one per generated transition of %d model states), %.1fs; replaying %s"
+                 % (depth, nbeh, r["distinct"], wall, "all" if stride == 1 else "every %dth" % stride))
+        for k in range(nparts):
+            _gen.append(["--replay", prefix, "--nfiles", nfiles, "--part", k, "--parts", nparts, "--stride", stride, "--offset", seed % stride])
+    return dirs
+
+def replay_nontrivial(evs):
+    # a replayed behaviour is non-trivial when it wrote bits successfully (the epilogue then creates a later view and asks it)
+    return any(e["e"] in WRITES and e.get("out") == "ok" for e in evs)
+
+BLOOM_REPLAY_JOB = job("bloom_replay",
+    harness="bloom_rec", inc=["common", "filters"], spec="TraceBloom", owners=["C15"], drift_cfg="TraceBloomB.cfg", heap="4g",
+    files={Q: sum(p[2] for p in GEN_PLAN[Q]), T: sum(p[2] for p in GEN_PLAN[T])},
+    args=lambda tier, seed, k, profile: _gen[k],
+    nontrivial=replay_nontrivial,
 )
 
 BLOOM_MC = [
@@ -52,7 +106,13 @@ BLOOM_MC_NEGATIVE = ["MC_BloomDesign_neg.cfg", "MC_BloomDesign_neg_qau.cfg", "MC
       "random seeds, incompatible operands, serialize with headers; every event validated by TLC against the contract with REFERENCE XXH64 index "
       "lists; bits read from the serialized image / caller memory; a segment (Begin..next Begin) is non-trivial when memory written through a "
       "view was re-wrapped or deserialized and a previously inserted item was then found through a view or restored filter and a set operation "
-      "between two different filters succeeded, or when it carries FPP verdicts; distinct = distinct segment content hash",
+      "between two different filters succeeded, or when it carries FPP verdicts; distinct = distinct segment content hash; "
+      "spec -> impl: GenBloom.tla makes TLC emit one behaviour per generated transition of the design model (1 region, 3 view slots, 3 items with "
+      "overlapping index pairs; Wrap/WWrap/Deser/Copy/Update incl. through stale views/QueryUpdate/BitsUsed/Reset/Invert/Union/Intersect/Drop; "
+      "quick: all of depth 4; thorough: all of depth 5 and every 16th of depth 6), `bloom_rec --replay` runs them on real filters (capacity 64/128/192, items mined with the "
+      "reference hash), asks every fresh view and a view created afterwards for all items, and the traces pass the same validation (a replayed "
+      "behaviour is non-trivial when it wrote bits); tier B (TraceBloomB.cfg) re-runs every accepted trace with the design model in lock-step and "
+      "compares the count word stored in wrapped memory after every call (MODEL-DRIFT only)",
       ["harness/refhash.hpp is the published XXH64 (self-checked on published vectors at start-up); integers are hashed as their value widened to a 64-bit "
        "little-endian word, float widened to double, -0.0 -> 0.0, NaN -> 0x7ff8000000000000, strings/arrays as their bytes, empty ignored",
        "a view of caller memory is specified from its creation until ANOTHER view writes to the same memory (the class caches the bit count per "
@@ -65,3 +125,9 @@ BLOOM_MC_NEGATIVE = ["MC_BloomDesign_neg.cfg", "MC_BloomDesign_neg_qau.cfg", "MC
 def run_c15(oc, repo, seed, tier):
     mc_all(oc, BLOOM_MC, tier)
     core.trace_job(oc, BLOOM_JOB, repo, seed, tier)
+    dirs = gen_bloom(oc, tier, seed)
+    try:
+        core.trace_job(oc, BLOOM_REPLAY_JOB, repo, seed, tier)
+    finally:
+        for d in dirs:
+            shutil.rmtree(d, ignore_errors=True)
